@@ -1005,7 +1005,7 @@ fn k_checks() -> Vec<Box<dyn Check>> {
         generate: gen_select,
         monitors: || vec![Box::new(crate::ksim::sel::C12)],
         full_select_obs: true,
-        quick_runs: 2_000,
+        quick_runs: 1_200,
         thorough_runs: 600_000,
         rule: SEL_RULE_C12,
         assumptions: SEL_ASSUMPTIONS,
